@@ -1178,6 +1178,12 @@ class Exec:
                 return [(st, VBuiltin('prelude.' + imp[2]))]
             raise ToolLimit('module attr %s.%s' % (o.mod, attr))
         if isinstance(o, VClass):
+            for c in self.repo.mro(o.qual):
+                if (c, attr) in self.hooks:
+                    hk = self.hooks[(c, attr)]
+                    if getattr(hk, 'is_method', False):
+                        return [(st, VBuiltin('hook', bound=(hk, o)))]
+                    return hk(self, st, o, [])
             if self.repo.is_enum(o.qual):
                 mem = self.repo.enum_members(o.qual)
                 if attr in mem:
@@ -1699,6 +1705,18 @@ class Exec:
                     t = UNHEXF(xs)
                     st.facts += [2 * z3.Length(t) == z3.Length(xs)]
                 return [(st, VBytes(t))]
+            if name in ('base64.b64encode', 'base64.b64decode'):
+                B64E = z3.Function('BASE64', BYTES, BYTES)
+                B64D = z3.Function('UNBASE64', BYTES, BYTES)
+                x = A[0]
+                xs = self.strseq(x) if isinstance(x, VStr) else self.seq(x, st)
+                if name == 'base64.b64encode':
+                    t = B64E(xs)
+                    st.facts += [z3.Length(t) == 4 * ((z3.Length(xs) + 2) / 3), B64D(t) == xs]
+                else:
+                    t = B64D(xs)
+                    st.ghost.setdefault('b64decoded', []).append((xs, t))
+                return [(st, VBytes(t))]
             if name in ('re.subn', 're.sub'):
                 pat, rep = self.conc_bytes(A[0], st), self.conc_bytes(A[1], st)
                 if pat is None or rep is None:
@@ -1718,7 +1736,11 @@ class Exec:
                 return [(st, VHash(('param', A[0]), ref))]
             if name == 'range':
                 lo, hi = (VInt(0), A[0]) if len(A) == 1 else (A[0], A[1])
-                return [(st, VRange(lo, hi))]
+                r = VRange(lo, hi)
+                r.step = A[2].conc() if len(A) > 2 else 1
+                if r.step is None or r.step <= 0:
+                    raise ToolLimit('range with a symbolic or non-positive step')
+                return [(st, r)]
             if name in ('ValueError', 'TypeError', 'NotImplementedError', 'IndexError', 'KeyError'):
                 return [(st, VStr(s=('exc', name)))]
             if name == 'itertools.chain':
@@ -1869,6 +1891,12 @@ class Exec:
                 return [(st, VNone())]
             if name == 'encode':
                 return [(st, b)]
+            if name == 'decode':
+                enc = A[0].s if A and isinstance(A[0], VStr) else (kws.get('encoding').s if kws.get('encoding') is not None else 'utf-8')
+                if enc in ('latin-1', 'latin1', 'iso-8859-1', 'ascii'):
+                    return [(st, VStr(z=self.seq(b, st)))]       # identity embedding of octets into code points 0..255
+                F = z3.Function('DECODE[%s]' % enc, BYTES, BYTES)
+                return [(st, VStr(z=F(self.seq(b, st))))]
         if isinstance(b, VStr) and name == 'encode':
             if b.s is not None and isinstance(b.s, str):
                 return [(st, VBytes(self.lit_bytes(b.s.encode(A[0].s if A else 'utf-8'))))]
@@ -1886,8 +1914,38 @@ class Exec:
             return [(st, VStr(z=t))]
         if isinstance(b, VStr) and name in ('upper', 'lower') and isinstance(b.s, str):
             return [(st, VStr(s=getattr(b.s, name)()))]
-        if isinstance(b, VStr) and name == 'join':
+        if isinstance(b, VStr) and name == 'join' and isinstance(b.s, str):
+            try:
+                its = self.iter_items(A[0], st)
+                if all(isinstance(x, VStr) and (x.z is not None or isinstance(x.s, str)) for x in its):
+                    if all(isinstance(x.s, str) for x in its):
+                        return [(st, VStr(s=b.s.join(x.s for x in its)))]
+                    parts = []
+                    for i, x in enumerate(its):
+                        if i and b.s:
+                            parts.append(self.strseq(VStr(s=b.s)))
+                        parts.append(self.strseq(x))
+                    z = z3.Empty(BYTES) if not parts else parts[0] if len(parts) == 1 else z3.Concat(*parts)
+                    return [(st, VStr(z=z))]
+            except ToolLimit:
+                pass
             return [(st, VStr(s='<fmt>'))]
+        if isinstance(b, VStr) and name == 'format' and isinstance(b.s, str) and not A and kws and \
+                all(isinstance(v, VStr) and (v.z is not None or isinstance(v.s, str)) and v.s != '<fmt>' for v in kws.values()):
+            import string
+            parts = []
+            okfmt = True
+            for lit, field, spec, conv in string.Formatter().parse(b.s):
+                if lit:
+                    parts.append(self.strseq(VStr(s=lit)))
+                if field is not None:
+                    if field not in kws or spec not in ('', 's') or conv:
+                        okfmt = False
+                        break
+                    parts.append(self.strseq(kws[field]))
+            if okfmt:
+                z = z3.Empty(BYTES) if not parts else parts[0] if len(parts) == 1 else z3.Concat(*parts)
+                return [(st, VStr(z=z))]
         if isinstance(b, VStr) and name == 'format':
             return [(st, VStr(s='<fmt>'))]
         if isinstance(b, VStr) and name == 'join' and b.s is not None and False:
@@ -2048,10 +2106,15 @@ class Exec:
         if isinstance(it, VDict):
             return [k for k, _ in it.pairs]
         if isinstance(it, VRange):
-            lo, hi = it.lo.conc(), self.concretize(st, self.as_int(it.hi), 1)
-            if lo is None or hi is None or len(hi) != 1:
+            step = getattr(it, 'step', 1)
+            lo = it.lo.conc()
+            if lo is None:
                 raise ToolLimit('range with symbolic bounds needs an invariant')
-            return [VInt(i) for i in range(lo, hi[0])]
+            hi = self.as_int(it.hi)
+            cnt = self.concretize(st, z3.If(hi > lo, (hi - lo + step - 1) / step, 0), 1)
+            if cnt is None or len(cnt) != 1:
+                raise ToolLimit('range with symbolic bounds needs an invariant')
+            return [VInt(lo + i * step) for i in range(cnt[0])]
         raise ToolLimit('iteration over %s needs an invariant' % type(it).__name__)
 
     # ---------------- statements
